@@ -27,7 +27,11 @@ txmode directives), every number `t0` of files applied by earlier runs, every cr
   the same crash states, at most `n` files beyond the ones applied before; the completed command applies
   exactly the next `n` files (or all that are left).
 
-PARTIAL: directories with failing statements under a crash, the re-run from a half-applied file of a
+* `crash_all_any` — `--tx-mode all` for ANY directory (failing statements anywhere, `txmode` directives of any
+  kind, any count, any revision table): a process that dies before the last operation of the command - the
+  only COMMIT, if there is one - has changed nothing durable.
+
+PARTIAL: directories with failing statements under a crash in file / none mode, the re-run from a half-applied file of a
 directive mix, crashes of the re-run itself in none mode (duplicates then add up: one per crash), and
 SQLite's own recovery are not covered by these theorems; the correspondence run covers them on the real
 engine.
@@ -35,6 +39,7 @@ engine.
 import Lemmas.Tx
 import Lemmas.TxCount
 import Lemmas.TxMixed
+import Lemmas.TxAllAtomic
 
 namespace Props.C10
 open Atlas.Tx
@@ -441,5 +446,17 @@ example : MixedOk { mode := .none } mixDir := by
 /-- crash in the middle of file 1 (its own transaction): nothing of it; in the middle of file 0: a prefix. -/
 example : crashAt {} (plan { mode := .none } mixDir {}).1 9 = after mixDir 1 := by decide
 example : crashAt {} (plan { mode := .none } mixDir {}).1 3 = partFile {} 1 1 2 := by decide
+
+/-- **crash_all_any**: `--tx-mode all`, any directory (failing statements, directives of any kind, which this
+mode rejects), any count and revision table: before the last operation of the command nothing is durable. -/
+theorem crash_all_any (cfg : Cfg) (hm : cfg.mode = .all) (dir : List TFile) (db : Db) (k : Nat)
+    (hk : k < (plan cfg dir db).1.length) : crashAt db (plan cfg dir db).1 k = db :=
+  plan_all_crash_any cfg hm dir db k hk
+
+/-- premises met: three files, a failing statement in the last one: 17 operations, every crash point. -/
+example :
+    let dir : List TFile := [{ ok := [true, true] }, { ok := [true] }, { ok := [true, false] }]
+    (plan { mode := .all } dir {}).1.length = 17 ∧
+    ∀ k < 17, crashAt {} (plan { mode := .all } dir {}).1 k = {} := by decide
 
 end Props.C10
